@@ -228,6 +228,11 @@ class Trace:
                 tr.events.append(("bv-new", call.args, s.copy(), call.site, s.ghost.get("min_args")))
             elif p.endswith("::checked_sub") and call.ctx.body["path"].startswith("block_handler::BlockHandler"):
                 tr.events.append(("checked_sub", call.args, s.copy(), call.site))
+            elif p.startswith("alloc::vec::Vec::<T, A>::") and call.name in ("clear", "drain", "truncate", "resize", "retain", "pop", "remove", "swap_remove", "split_off", "set_len") \
+                    and call.ctx.body["path"].startswith("block_handler::BlockHandler") and call.args and isinstance(call.args[0], RefV) \
+                    and is_state_place(call.args[0].place, "buffer"):
+                # the per-key upload buffer, still in the state, is cut or emptied by the handler itself
+                tr.events.append(("buffer-shrink", call.name, s.copy(), call.site))
             elif p == "error::HandlingError::bad_request":
                 s.ghost[("inj", "bad_request")] = True
                 tr.events.append(("bad_request", s.copy(), call.site))
@@ -251,6 +256,15 @@ class Trace:
                         s_.ghost["has_" + tp] = list(rv_.variants)[0] == 1
             I.return_hooks[gfo["id"]] = gfo_hook
             I.no_join_bodies.add(gfo["id"])
+        # a Block option whose value does not decode is treated as absent by the handler: mark those paths
+        bvdec = find_impl_fn(prog, "core::convert::TryFrom", BV, "alloc::vec::Vec<u8>", "try_from")
+        if bvdec is not None and bvdec["id"] not in I.return_hooks:
+            def dec_ret(I_, ctx, outs):
+                for s_, rv_ in outs:
+                    if isinstance(rv_, EnumV) and list(rv_.variants) == [1]:
+                        s_.ghost[("inj", "block-undecodable")] = True
+            I.return_hooks[bvdec["id"]] = dec_ret
+            I.no_join_bodies.add(bvdec["id"])
         # "served from the cache" = the function cutting a block out of a cached reply returned Ok
         for sv in find_serve(prog):
             def serve_ret(I_, ctx, outs):
